@@ -32,12 +32,18 @@ def cases(draw, tier):
     path = draw(st.sampled_from(['save', 'periodic', 'dill', 'deepcopy']))
     n = draw(st.sampled_from([1, 2, 3])) if path == 'periodic' else draw(st.sampled_from([None, None, 2]))
     k = draw(st.integers(0, 6 if tier == 'quick' else 12))
+    lazy = draw(st.integers(0, 3)) == 0
     if path == 'periodic':
         k = max(n, (k // n) * n)
+        if lazy and draw(st.booleans()):
+            k = 0                       # the restart file written by the very first Step (generation 0)
     m = draw(st.integers(2, 5))
     cfg['maxiter'] = k + m + 3
     # DE settings given as Step/Solve keywords (as Solve(strategy=...) forwards them to every Step) instead of attributes
     cfg['de_kwargs'] = cfg['solver'] in ('DE', 'DE2') and draw(st.booleans())
+    # limits asked for as 'the defaults, counted from now' (new=True without numbers): the solver resolves them when it
+    # next looks at its limits - the resolved values are part of the state a restored solver has to share
+    cfg['lazy_limits'] = lazy
     # the other solvers' sticky Step/Solve keywords (Powell: line-search settings, Nelder-Mead: simplex settings)
     if cfg['solver'] == 'PW' and draw(st.booleans()):
         cfg['step_kwargs'] = dict(xtol=draw(st.sampled_from([1e-7, 1e-2, 1e-3])), imax=draw(st.sampled_from([500, 500, 3])))
@@ -82,7 +88,13 @@ def build(case, ctx, tag):
     fn = os.path.join(d, 'state.pkl')
     if case.get('savefreq'):
         s.SetSaveFrequency(case['savefreq'], fn)
+    if case.get('lazy_limits'):
+        s.SetEvaluationLimits(new=True)
     return run, d, fn
+
+
+def _limits(s):
+    return [repr(getattr(s, '_maxiter', None)), repr(getattr(s, '_maxfun', None))]
 
 
 def _mon(kind, d, name, k=None):
@@ -123,12 +135,13 @@ def run_case(case, ctx):
     total = k + m
     # ---- run A: uninterrupted
     runA, dA, fnA = build(case, ctx, 'A')
-    SA = []
+    SA = []; LA = []
     kwA = de_kw(case)
     for b in range(total + 1):
         _reconf(case, runA, runA.solver, b)
         msg = runA.solver.Step(callback=runA.cb, **kwA)       # uninterrupted: the keywords on every Step, as Solve does
         SA.append(lab.snapshot(runA.solver))
+        LA.append(_limits(runA.solver))
         if msg: break
     if len(SA) < total + 1:
         ctx.exclude('run-stopped-before-k+m')
@@ -224,6 +237,10 @@ def run_case(case, ctx):
         ctx.expect(d is None, 'C06.resume',
                    lambda: dict(solver=runB.kind, path=path, k=k, restored_at=base, boundary=g, differs=d,
                                 want=_brief(want, d), got=_brief(got, d), savefreq=case.get('savefreq')))
+        if case.get('lazy_limits'):
+            ctx.expect(_limits(s2) == LA[g], 'C06.resume',
+                       lambda: dict(solver=runB.kind, path=path, k=k, restored_at=base, boundary=g, differs='resolved limits',
+                                    want=LA[g], got=_limits(s2)))
         ctx.expect(int(s2.evaluations) - e0 == made, 'C06.own_count',
                    lambda: dict(solver=runB.kind, path=path, counted=int(s2.evaluations) - e0, real_calls=made))
         d2 = lab.snap_equal(orig_before, lab.snapshot(sB))
@@ -245,6 +262,7 @@ def run_case(case, ctx):
     if case['advance']: ctx.label('original-advanced-first')
     if case.get('de_kwargs'): ctx.label('de-settings-as-keywords')
     if case.get('step_kwargs'): ctx.label('sticky-step-keywords')
+    if case.get('lazy_limits'): ctx.label('limits-resolved-lazily', 'checkpoint-at-generation-0' if k == 0 else 'checkpoint-later')
     if case.get('reconf'): ctx.label('re-decorations:' + ','.join(sorted(set(h for _, h in case['reconf']))))
     ctx.label('monitor-k:%s' % case.get('monk'))
     ctx.nontrivial(k >= 1 and n_steps >= 2 and changed)
